@@ -1,7 +1,11 @@
 ------------------------- MODULE IndependenceHistMC -------------------------
 (* The history machine bound to the abstract pipeline: inputs are catalogue cases, a run is PRun on the force-field objects   *)
 (* the process holds.  Intended design: a new force field is read for every call, the writer queue is flushed by the call     *)
-(* that filled it, the output file is replaced.  Deviations: cacheFF (loaded force fields kept in a module-level cache - the   *)
+(* that filled it, the output file is replaced, the default value of gen_params' inpath argument (one list object for the whole   *)
+(* process) stays empty.  An input either hands over its files explicitly (HLib[i] = <<>>: all files of its force field, a new  *)
+(* list per call) or names a LIBRARY (HLib[i] = the files of the catalogue entry that make up the library) and leaves inpath at  *)
+(* its default: the call then reads  default-inpath files, then the library files.  Deviations: inpathLeak (the library files   *)
+(* are appended to the default inpath list: seed-C13-1), cacheFF (loaded force fields kept in a module-level cache - the   *)
 (* retagged exclusion distances and the grown citation sets of an earlier run leak), writerAppend (output appended to an       *)
 (* existing file), flushLate (the queue is written out by the NEXT call).                                                      *)
 EXTENDS IndependenceCat, IndependenceHist, Json
@@ -11,14 +15,25 @@ CaseFail == Case(29, 6, 1, <<"A", "C">>, NoFi(2), Chain(2), <<>>)
 HCase(id) == IF id = 29 THEN CaseFail ELSE CHOOSE c \in AllCases : c.id = id
 HIn3 == <<HCase(26), HCase(27), HCase(21)>>
 HIn4 == <<HCase(26), HCase(27), HCase(21), CaseFail>>
-CONSTANT HInputs
+CONSTANTS HInputs, HLib
+HInL == <<HCase(33), HCase(33), HCase(26)>>       \* the same residue graph on library X, on library Y, and an input with explicit files
+HLibL == <<<<1>>, <<2>>, <<>>>>
+NoLib3 == <<<<>>, <<>>, <<>>>>
+NoLib4 == <<<<>>, <<>>, <<>>, <<>>>>
+FileRec(F, k) == [syn |-> F.files[k].syn, src |-> k, defs |-> F.files[k].defs]
+LibFiles(i) == [k \in DOMAIN HLib[i] |-> FileRec(FFof(HInputs[i]), HLib[i][k])]
 
-P0 == [ff |-> <<>>, fs |-> [i \in 1..Len(HInputs) |-> <<>>], queue |-> <<>>]
-FreshRes(i) == LET o == PResult(HInputs[i]) IN [out |-> o, file |-> IF o.err = "" THEN <<o>> ELSE <<>>]
+P0 == [ff |-> <<>>, fs |-> [i \in 1..Len(HInputs) |-> <<>>], queue |-> <<>>, dflt |-> <<>>]
+\* what one call reads: explicit files, or (default inpath) ++ (library files)
+FilesRead(i, dflt) == IF HLib[i] = <<>> THEN BasePresentation(FFof(HInputs[i])) ELSE dflt \o LibFiles(i)
+FreshRes(i) == LET c == HInputs[i]
+                   L == Loaded(FFof(c), FilesRead(i, <<>>), FALSE)
+                   o == PRun(c, L, FreshBx(FFof(c), L)).out
+               IN [out |-> o, file |-> IF o.err = "" THEN <<o>> ELSE <<>>]
 RunInMC(i, p) ==
   LET c == HInputs[i]
       cached == Dev.cacheFF /\ c.ff \in DOMAIN p.ff
-      L == IF cached THEN p.ff[c.ff].L ELSE PLoaded(c)
+      L == IF cached THEN p.ff[c.ff].L ELSE Loaded(FFof(c), FilesRead(i, p.dflt), FALSE)
       bx0 == IF cached THEN p.ff[c.ff].bx ELSE FreshBx(FFof(c), L)
       r == PRun(c, L, bx0)
       ok == r.out.err = ""
@@ -31,7 +46,8 @@ RunInMC(i, p) ==
       flush(fs, q, k) == IF k > Len(q) THEN fs ELSE flush(put(fs, q[k]), q, k + 1)
       fs2 == flush(p.fs, flushNow, 1)
   IN [res |-> [out |-> r.out, file |-> fs2[i]],
-      proc |-> [ff |-> IF Dev.cacheFF THEN (c.ff :> [L |-> L, bx |-> r.bx]) @@ p.ff ELSE p.ff, fs |-> fs2, queue |-> q2]]
+      proc |-> [ff |-> IF Dev.cacheFF THEN (c.ff :> [L |-> L, bx |-> r.bx]) @@ p.ff ELSE p.ff, fs |-> fs2, queue |-> q2,
+               dflt |-> IF Dev.inpathLeak /\ HLib[i] # <<>> THEN p.dflt \o LibFiles(i) ELSE p.dflt]]
 FreshTab == TLCEval([i \in 1..Len(HInputs) |-> FreshRes(i)])
 FreshOf(i) == FreshTab[i]
 NIn == Len(HInputs)
@@ -42,5 +58,5 @@ CaseJ(c) == [id |-> c.id, ff |-> c.ff, n |-> c.n, start |-> c.start, rn |-> c.rn
 \* S->I: every history with the results the specification gives to each of its runs (only the equality classes matter to the
 \* harness: it compares each run with the fresh-process run of the same input; the expected projection is checked as well)
 ExportHist == (Len(h) >= 1) => PrintT(<<"HIST", ToJson([h |-> h, same |-> [k \in DOMAIN h |-> res[k] = FreshOf(h[k])]])>>)
-ExportInputs == (Len(h) = 0) => PrintT(<<"HINPUTS", ToJson([i \in 1..NIn |-> [case |-> CaseJ(HInputs[i]), expected |-> OutJ(FreshRes(i).out)]])>>)
+ExportInputs == (Len(h) = 0) => PrintT(<<"HINPUTS", ToJson([i \in 1..NIn |-> [case |-> CaseJ(HInputs[i]), expected |-> OutJ(FreshRes(i).out), lib |-> HLib[i]]])>>)
 =============================================================================
